@@ -35,7 +35,19 @@ pub fn parse_indexed_resp(buf: &mut BytesMut) -> Result<IndexedResp, ParseError>
     Ok(IndexedResp::new(resp, data))
 }
 
+// The parser is recursive. Without a limit a few hundred kilobytes of nested
+// array headers overflow the stack and abort the whole process.
+// No Redis command or reply comes anywhere near this depth.
+const MAX_NESTED_DEPTH: usize = 128;
+
 pub fn parse_resp(buf: &[u8]) -> Result<(RespIndex, usize), ParseError> {
+    parse_resp_with_depth(buf, 0)
+}
+
+fn parse_resp_with_depth(buf: &[u8], depth: usize) -> Result<(RespIndex, usize), ParseError> {
+    if depth > MAX_NESTED_DEPTH {
+        return Err(ParseError::InvalidProtocol);
+    }
     if buf.is_empty() {
         return Err(ParseError::NotEnoughData);
     }
@@ -65,7 +77,7 @@ pub fn parse_resp(buf: &[u8]) -> Result<(RespIndex, usize), ParseError> {
             Ok((RespIndex::Error(v), 1 + consumed))
         }
         b'*' => {
-            let (mut v, consumed) = parse_array(next_buf)?;
+            let (mut v, consumed) = parse_array_with_depth(next_buf, depth)?;
             v.advance(1);
             Ok((RespIndex::Arr(v), 1 + consumed))
         }
@@ -76,7 +88,12 @@ pub fn parse_resp(buf: &[u8]) -> Result<(RespIndex, usize), ParseError> {
     }
 }
 
+#[cfg(test)]
 fn parse_array(buf: &[u8]) -> Result<(ArrayIndex, usize), ParseError> {
+    parse_array_with_depth(buf, 0)
+}
+
+fn parse_array_with_depth(buf: &[u8], depth: usize) -> Result<(ArrayIndex, usize), ParseError> {
     let (len, mut consumed) = parse_len(buf)?;
     if len < 0 {
         return Ok((ArrayIndex::Nil, consumed));
@@ -89,7 +106,7 @@ fn parse_array(buf: &[u8]) -> Result<(ArrayIndex, usize), ParseError> {
 
     for _ in 0..array_size {
         let next_buf = buf.get(consumed..).ok_or(ParseError::InvalidProtocol)?;
-        let (mut v, element_consumed) = parse_resp(next_buf)?;
+        let (mut v, element_consumed) = parse_resp_with_depth(next_buf, depth + 1)?;
         v.advance(consumed);
         consumed += element_consumed;
         array.push(v);
